@@ -5,6 +5,7 @@ CONSTANTS
   MOps = {"SetLabel", "SetLength", "SetNodeLabel", "RelabelTaxon", "AddTaxon", "AddAnnotation", "ChangeAnnotation", "ChangeBoundAttr", "Encode", "Structural", "SetCell", "AddComment"}
   MClasses = {"Tree", "TreeList", "Matrix", "Namespace"}
   MConfigs = {"default"}
+  XrefShapes = FALSE
   MaxSteps = 1
   MaxCopies = 2
   Bug = "thin_shares_edge"
